@@ -314,6 +314,69 @@ func c07units(tier string) []mc.Unit {
 		r.AddNontrivial(n)
 		r.Sample(`Optimize("MJKV", table 1): J is not in the table -> an error, never a panic`)
 	}})
+	// (iv-b) every letter that a default table does not encode, for all 25 tables
+	us = append(us, mc.Unit{Name: "unencodable/all-tables", Serial: true, Weight: 50, Run: func(r *mc.Recorder) {
+		var n int64
+		for _, id := range ncbiIDs() {
+			t := deepCopyTable(codon.GetCodonTable(id))
+			v := viewOf(t)
+			if v.weights() != strings.Repeat("1,", 64) {
+				r.Skip(1)
+				continue
+			}
+			have := map[string]bool{}
+			for _, l := range c7letters(v) {
+				have[l] = true
+			}
+			for _, ch := range "ABCDEFGHIJKLMNOPQRSTUVWXYZ*" {
+				l := string(ch)
+				if have[l] {
+					continue
+				}
+				n += c7judge(r, fmt.Sprintf("table %d protein %q", id, l), l, t, false, false)
+				n += c7judge(r, fmt.Sprintf("table %d protein %q", id, "M"+l), "M"+l, t, false, false)
+			}
+		}
+		r.Eval(n)
+		r.AddStates(n)
+		r.AddNontrivial(n)
+		r.Bound("unencodable/all-tables", "every letter A-Z and * that a default table does not list, alone and after M, for all 25 tables")
+	}})
+	// (ii-b) one table value over a history: optimise, re-weight in place, optimise again
+	for _, first := range vals {
+		first := first
+		us = append(us, mc.Unit{Name: fmt.Sprintf("reweight-in-place/F/first=%d", first), Serial: true, Weight: 300, Run: func(r *mc.Recorder) {
+			var n, cases int64
+			base := deepCopyTable(codon.GetCodonTable(1))
+			cods := viewOf(base).synonyms()["F"]
+			mk := func(c0, c1 int) string {
+				cnt := map[string]int{}
+				for _, c := range allCodons {
+					cnt[c] = 1
+				}
+				cnt[cods[0]], cnt[cods[1]] = c0, c1
+				return seqForCounts(cnt)
+			}
+			for _, a1 := range vals {
+				for _, b0 := range vals {
+					for _, b1 := range vals {
+						t := deepCopyTable(base)
+						t = t.OptimizeTable(mk(first, a1))
+						n += c7judge(r, fmt.Sprintf("table 1 re-weighted F=[%d %d], protein F", first, a1), "F", t, first+a1 > 0, true)
+						t2 := t.OptimizeTable(mk(b0, b1)) // in place, same table value
+						cas := fmt.Sprintf("table 1: optimise, re-weight in place F=[%d %d]->[%d %d], optimise again", first, a1, b0, b1)
+						n += c7judge(r, cas, "F", t2, b0+b1 > 0, true)
+						n += c7judge(r, cas+" (receiver)", "F", t, b0+b1 > 0, true)
+						cases++
+					}
+				}
+			}
+			r.Eval(n)
+			r.AddStates(cases)
+			r.AddNontrivial(n)
+			r.Bound("reweight-in-place", "sequences optimise; OptimizeTable(in place); optimise on one table value, all pairs of F count vectors over the value set")
+		}})
+	}
 	// (v) every output of the random protein generator at small lengths
 	maxGen := tier2(tier, 4, 5)
 	us = append(us, mc.Unit{Name: "generator", Serial: true, Weight: 400, Run: func(r *mc.Recorder) {
